@@ -14,11 +14,17 @@ try:
     agent_meta = json.load(open(f"{src}/meta.json"))
 except Exception as e:
     agent_meta = {"error": str(e)}
-conf = subprocess.run([f"{ROOT}/tools/confirm_mutant.sh", wt, m], capture_output=True, text=True).stdout.strip().splitlines()
+if os.environ.get("CONFIRM_FILE"):   # confirmation already run (tools/confirm_mutant.sh <wt> <m> > file), e.g. in parallel with others
+    conf = open(os.environ["CONFIRM_FILE"]).read().strip().splitlines()
+else:
+    conf = subprocess.run([f"{ROOT}/tools/confirm_mutant.sh", wt, m], capture_output=True, text=True).stdout.strip().splitlines()
 conf = conf[-1] if conf else "no output"
 mm = re.search(r"suite='([^']*)' demo_with_change_exit=(\d+) demo_without_change_exit=(\d+)", conf)
 confirmed = bool(mm and "100% tests passed" in mm.group(1) and mm.group(2) != "0" and mm.group(3) == "0")
-res = subprocess.run([f"{ROOT}/tools/run_seeded.sh", f"{dst}/patch.diff"] + checks, capture_output=True, text=True).stdout
+if os.environ.get("SEEDED_FILE"):    # checks already run (tools/run_seeded.sh <patch> <ID>... > file)
+    res = open(os.environ["SEEDED_FILE"]).read()
+else:
+    res = subprocess.run([f"{ROOT}/tools/run_seeded.sh", f"{dst}/patch.diff"] + checks, capture_output=True, text=True).stdout
 results = []
 for line in res.splitlines():
     r = re.match(r"SEEDED \S+ check=(\S+) rc=(\d+) violation_lines=(\d+) :: ?(.*)", line)
